@@ -26,6 +26,9 @@ fn main() {
     mc_core::subject::install_quiet_panic_hook();
     let cli = parse_cli();
     let t0 = std::time::Instant::now();
+    if cli.cmd != "replay" && mc_core::isolate::worker_spec().is_none() {
+        mc_core::abortguard::install(cli.out.clone(), &cli.cmd, "aiger", cli.tier.name());
+    }
     let tier = cli.tier;
     if cli.cmd == "replay" {
         let text = std::fs::read_to_string(cli.file.as_ref().expect("replay needs a file")).unwrap();
